@@ -1199,6 +1199,21 @@ pub fn mon_c15(out: &mut Out, l: &str, r: &str) {
 // ================================================================ C16
 
 pub fn gen_c16(out: &mut Out, rng: &mut Rng, thorough: bool) {
+    // a client that has made many calls before one is abandoned (the transaction id is all that
+    // tells a late reply from the real one: it must still be fresh after 65536 calls)
+    for n in if thorough { vec![11usize, 255, 256, 65_534, 65_535, 65_536, 65_537, 70_000] } else { vec![256, 65_535, 65_537] } {
+        let unit = rng.unit();
+        let t1 = n as u16;
+        let t2 = t1.wrapping_add(1);
+        let mut line = format!("cli tcp {}", hex8(unit));
+        for _ in 0..n {
+            line.push_str(" | call RSI r=e");
+        }
+        let late = frame("tcp", t1, unit, &[0x03, 0x02, 0xDE, 0xAD]);
+        let reply2 = frame("tcp", t2, unit, &[0x03, 0x02, 0xCA, 0xFE]);
+        line.push_str(&format!(" | call RHR:0001:0001 b=2 r=p,p | call RHR:0102:0001 r=d{}{}", hex_raw(&late), hex_raw(&reply2)));
+        monitor_line(out, &line);
+    }
     let shapes = if thorough { 40 } else { 12 };
     let patterns = if thorough { 120 } else { 30 };
     for si in 0..shapes {
@@ -1294,21 +1309,29 @@ pub fn gen_c16_partial(out: &mut Out, rng: &mut Rng, thorough: bool) {
 }
 
 pub fn mon_c16(out: &mut Out, l: &str, r: &str) {
-    let (head, ops) = ops_of(l);
-    if head[0] != "cli" || ops.len() != 2 || ops[0].name != "call" || ops[1].name != "call" {
+    let (head, all_ops) = ops_of(l);
+    // the pair under judgement is the last two calls; before them there may be a run of plain
+    // exchanges that end with the peer's `e` (they only age the client: ids, buffers)
+    let n0 = all_ops.len().saturating_sub(2);
+    if head[0] != "cli" || all_ops.len() < 2 || all_ops[n0..].iter().any(|o| o.name != "call") {
+        return;
+    }
+    if all_ops[..n0].iter().any(|o| o.name != "call" || o.arg != "RSI" || field("r", &o.fields) != "e" || o.fields.len() != 1) {
         return;
     }
     let kind = head[1];
-    let res = parts(r);
-    if res.len() != 2 {
+    let all_res = parts(r);
+    if all_res.len() != all_ops.len() {
         return;
     }
+    let res = &all_res[n0..];
+    let ops = &all_ops[n0..];
     let got1 = outcome_of(res[0]);
     let got2 = outcome_of(res[1]);
     out.check(!r.contains("panic"), || "panic".into(), l);
     let (Some(q1), Some(q2)) = (op_request(&ops[0]), op_request(&ops[1])) else { return };
-    let (t1, u1) = expected_hdr(&head, &ops, 0);
-    let (t2, u2) = expected_hdr(&head, &ops, 1);
+    let (t1, u1) = expected_hdr(&head, &all_ops, n0);
+    let (t2, u2) = expected_hdr(&head, &all_ops, n0 + 1);
     let f1 = frame(kind, t1, u1, &spec::request_bytes(&q1).unwrap());
     let f2 = frame(kind, t2, u2, &spec::request_bytes(&q2).unwrap());
     let mut all = written(res[0]);
